@@ -175,6 +175,39 @@ pub fn decode(endpoint: HttpEndpoint, body: &[u8]) -> Result<Decoded, String> {
     }
 }
 
+/// Every response of a /multi_query_cols answer, in the order sent.
+pub fn decode_multi(endpoint: HttpEndpoint, body: &[u8]) -> Result<Vec<Decoded>, String> {
+    match endpoint {
+        HttpEndpoint::MultiJson => {
+            let v: serde_json::Value = serde_json::from_slice(body).map_err(|e| format!("body is no JSON: {e}"))?;
+            v.as_array().ok_or("body is no array")?.iter().map(decode_json_cols).collect()
+        }
+        HttpEndpoint::MultiBin | HttpEndpoint::MultiBinXor => {
+            let m = catch(AssertUnwindSafe(|| MultiQueryResponse::deserialize(body))).map_err(|p| format!("client-side decoding panicked: {}", panic_message(&p)))?.map_err(|e| format!("binary body does not decode: {e}"))?;
+            let mut out = Vec::new();
+            for r in &m.responses {
+                let mut cols = std::collections::BTreeMap::new();
+                for (k, c) in &r.columns {
+                    cols.insert(k.clone(), api_column_cells(c)?);
+                }
+                out.push(Decoded { colnames: None, rows: None, cols: Some(cols) });
+            }
+            Ok(out)
+        }
+        _ => Err("not a multi-query endpoint".into()),
+    }
+}
+
+pub fn multi_via(db: &Arc<LocustDB>, endpoint: HttpEndpoint, sqls: &[String]) -> Result<HttpOut, String> {
+    use serde_json::json;
+    let opts = match endpoint {
+        HttpEndpoint::MultiBin => json!({ "xor_float_compression": false, "mantissa": null, "full_precision_cols": [] }),
+        HttpEndpoint::MultiBinXor => json!({ "xor_float_compression": true, "mantissa": null, "full_precision_cols": [] }),
+        _ => serde_json::Value::Null,
+    };
+    call(db, "/multi_query_cols", Body::Json(json!({ "queries": sqls, "encoding_opts": opts })))
+}
+
 pub fn query_via(db: &Arc<LocustDB>, endpoint: HttpEndpoint, sql: &str) -> Result<HttpOut, String> {
     use serde_json::json;
     match endpoint {
@@ -343,6 +376,16 @@ fn compare_answers(env: &mut Env, emb: &Result<QOut, QErr>, endpoint: HttpEndpoi
                     return;
                 }
             };
+            compare_decoded(env, o, &d, endpoint, sql, ordered, ctx);
+        }
+    }
+}
+
+/// one decoded response against the embedded answer to the same statement
+fn compare_decoded(env: &mut Env, o: &QOut, d: &Decoded, endpoint: HttpEndpoint, sql: &str, ordered: bool, ctx: &str) {
+    let ep = format!("{endpoint:?}");
+    {
+        {
             let json = is_json(endpoint);
             if let Some(cn) = &d.colnames {
                 if cn != &o.colnames {
@@ -431,6 +474,56 @@ pub fn exec_http(env: &mut Env, op: &Op, ctx: &str) {
             compare_with_embedded(env, *endpoint, &q.sql, single || !aggregate, ctx)
         }
         Op::HttpRawQuery { endpoint, sql } => compare_with_embedded(env, *endpoint, sql, single, ctx),
+        Op::HttpMulti { endpoint, sqls } => {
+            let db = env.db();
+            let ep = format!("{endpoint:?}");
+            let embs: Vec<Result<QOut, QErr>> = sqls.iter().map(|q| run_query_fmt(&db, q, false)).collect();
+            let http = multi_via(&db, *endpoint, sqls);
+            env.count("http_multi_requests");
+            let h = match http {
+                Err(m) => {
+                    env.violate(&format!("http:handler_panicked:{ep}:multi"), format!("[{ctx}] {ep} {sqls:?}: the handler panicked: {m}"));
+                    return;
+                }
+                Ok(h) => h,
+            };
+            if let Some(Err(QErr::Panic(m))) = embs.iter().find(|e| matches!(e, Err(QErr::Panic(_)))) {
+                env.violate(&caller_panic_class("query_panicked_in_caller", m), format!("[{ctx}] run_query panicked in the calling thread: {m}"));
+                return;
+            }
+            if embs.iter().any(|e| e.is_err()) {
+                if h.status == 200 {
+                    env.violate(&format!("http:status_200_for_failing_query:{ep}:multi"), format!("[{ctx}] {ep} {sqls:?}: HTTP 200 although one of the statements fails through the embedded API"));
+                } else {
+                    env.count("http_failing_query_mapped");
+                }
+                return;
+            }
+            if h.status != 200 {
+                env.violate(&format!("http:error_status_for_ok_query:{ep}:multi"), format!("[{ctx}] {ep} {sqls:?}: status {} although every statement is answered by the embedded API", h.status));
+                return;
+            }
+            let ds = match decode_multi(*endpoint, &h.body) {
+                Ok(d) => d,
+                Err(e) => {
+                    env.violate(&format!("http:undecodable_body:{ep}:multi"), format!("[{ctx}] {ep} {sqls:?}: {e}"));
+                    return;
+                }
+            };
+            if ds.len() != sqls.len() {
+                env.violate(&format!("http:response_count_differs:{ep}"), format!("[{ctx}] {ep}: {} responses for {} statements", ds.len(), sqls.len()));
+                return;
+            }
+            for (i, (d, emb)) in ds.iter().zip(embs.iter()).enumerate() {
+                if let Ok(o) = emb {
+                    let before = env.violations.len();
+                    compare_decoded(env, o, d, *endpoint, &sqls[i], single, &format!("{ctx}, response {i} of {}", sqls.len()));
+                    if env.violations.len() > before {
+                        return;
+                    }
+                }
+            }
+        }
         Op::HttpColumns { table, pattern } => {
             let db = env.db();
             let emb = catch(AssertUnwindSafe(|| rt::block_on(db.search_column_names(table, pattern))));
